@@ -1,10 +1,108 @@
-(* C05 — Forkless-cause index equals the graph definition.  (theorems are added below as they are proved) *)
-From Coq Require Import NArith List.
-From LV Require Import model.VecIndex spec.FcSpec proofs.FcSpecFast.
+(* C05 — Forkless-cause index equals the graph definition.
+   Only theorem statements, each closed by [exact <lemma>], non-vacuity examples, Print Assumptions.
+   model: model/VecIndex.v (Engine.Add = add, Index.forklessCause = fc, Index.ForklessCause with its
+   LRU = fc_query); specification: spec/FcSpec.v (fc_spec: ancestry closure + seq-forks). *)
+From Coq Require Import NArith List Permutation Bool.
+From LV Require Import model.VecIndex spec.FcSpec spec.StreamSpec proofs.FcSpecFast proofs.FcSpecFacts proofs.VecInv proofs.VecStep proofs.VecMain.
+Import ListNotations.
 Local Open Scope N_scope.
+Local Open Scope bool_scope.
 
-(* the table-driven evaluation used by the check driver is the specification itself *)
+(* the specification side: [anc] is the ancestor-or-self closure; a validator is counted iff it
+   shows no fork below A and has an event that is a descendant-or-self of B and an ancestor-or-self
+   of A; the table-driven evaluation used by the check driver is the same function *)
+Theorem C05_anc_is_ancestry : forall E a x, In x (anc E a) <-> reach E a x.
+Proof. exact anc_iff. Qed.
+Theorem C05_spec_counts_validator : forall E a b v,
+  (negb (sees_fork E (anc E a) v) &&
+   existsb (fun x => match alookup x E with Some ex => Nat.eqb (ecr ex) v && existsb (N.eqb b) (anc E x) | None => false end) (anc E a)) = true
+  <-> (~ SeesFork E a v /\ Between E a b v).
+Proof. exact fc_spec_counted. Qed.
 Theorem C05_spec_row_is_spec : forall ws q n E a bs,
   fc_spec_row ws q n E (anc_table E) a bs = map (fc_spec ws q n E a) bs.
 Proof. exact fc_spec_row_eq. Qed.
+
+(* one Engine.Add: for a well-formed new event whose parents are indexed, Add succeeds (the DFS fuel
+   suffices, no error path) and the invariant I1-I3 is preserved *)
+Theorem C05_add_preserves_invariant : forall n s e, vinv n s -> wf_new n s e ->
+  exists s', add s e = Some s' /\ vinv n s' /\ evs s' = (eid e, e) :: evs s.
+Proof. exact add_preserves. Qed.
+
+(* the property: for every validator count, weight vector, quorum q > 0, every well-formed
+   parents-first stream (forks included) and every pair of indexed events *)
+Theorem C05_forkless_cause_equals_spec : forall ws q n o a b,
+  wf_stream n o -> 0 < q -> indexed o a -> indexed o b ->
+  fc ws q (index_all n o) a b = fc_spec ws q n (dag_of o) a b.
+Proof. exact fc_index_all. Qed.
+
+(* independence of the indexing order *)
+Theorem C05_order_independent : forall ws q n o1 o2 a b,
+  wf_stream n o1 -> wf_stream n o2 -> Permutation o1 o2 -> 0 < q -> indexed o1 a -> indexed o1 b ->
+  fc ws q (index_all n o1) a b = fc ws q (index_all n o2) a b.
+Proof. exact fc_order_independent. Qed.
+
+(* independence of earlier queries and of the cache: any interleaving of Adds and ForklessCause
+   calls (through the LRU of any capacity, 0 included); every answer equals the specification on the
+   final DAG *)
+Theorem C05_cached_queries_equal_spec : forall ws q n cap ops, 0 < q -> wf_ops n [] ops ->
+  let '(s, _, out) := fold_left (istep ws q) ops (init n, fcache_new cap, []) in
+  forall a b r, In (a, b, r) out -> r = fc_spec ws q n (evs s) a b.
+Proof. exact queries_equal_spec. Qed.
+Theorem C05_spec_stable_under_growth : forall ws q n E1 E2 a b, submap E1 E2 -> closed E1 ->
+  (exists ea, alookup a E1 = Some ea) -> (exists eb, alookup b E1 = Some eb) ->
+  fc_spec ws q n E2 a b = fc_spec ws q n E1 a b.
+Proof. exact fc_spec_submap. Qed.
+
+(* Flush / DropNotFlushed: in every history of well-formed Adds, Flushes and Drops both the flushed
+   and the current view satisfy the invariant (so every query on either equals the specification) *)
+Theorem C05_flush_drop_histories : forall n ops st, vinv n (vs_flushed st) -> vinv n (vs_cur st) ->
+  wf_vops n (evs (vs_flushed st)) (evs (vs_cur st)) ops ->
+  let st' := fold_left vs_step ops st in vinv n (vs_flushed st') /\ vinv n (vs_cur st').
+Proof. exact vstore_inv. Qed.
+Theorem C05_query_from_invariant : forall n s ws q a b ea eb, vinv n s -> 0 < q -> evt s a ea -> evt s b eb ->
+  fc ws q s a b = fc_spec ws q n (evs s) a b.
+Proof. intros n s ws q a b ea eb I. exact (fc_eq_spec n s I ws q a b ea eb). Qed.
+
+(* the executable hypothesis check run by the driver on every generated stream *)
+Theorem C05_wf_check_is_hypothesis : forall n E e, wf_evb n E e = true <-> wf_ev n E e.
+Proof. exact wf_evb_iff. Qed.
+
+(* non-vacuity: 3 validators (weights 1,1,1, quorum 3); validator 0 forks at seq 2 (events 4 and 5);
+   event 6 sees the fork.  The stream is well-formed, a query is true, a query is false because of the
+   fork, and the cached history returns exactly these answers. *)
+Definition ex_o : list event :=
+  [ {| eid := 1; ecr := 0; eseq := 1; epar := [] |};
+    {| eid := 2; ecr := 1; eseq := 1; epar := [1] |};
+    {| eid := 3; ecr := 2; eseq := 1; epar := [2] |};
+    {| eid := 4; ecr := 0; eseq := 2; epar := [1; 3] |};
+    {| eid := 5; ecr := 0; eseq := 2; epar := [1] |};
+    {| eid := 6; ecr := 1; eseq := 2; epar := [2; 4; 5] |} ].
+Example C05_ex_wf : wf_stream 3 ex_o.
+Proof.
+  unfold wf_stream, ex_o. cbn [wf_from].
+  repeat (split; [unfold wf_ev; cbn [eid ecr eseq epar self_parent N.leb N.compare Pos.compare Pos.compare_cont];
+    repeat split; try reflexivity; try (vm_compute; intros H; discriminate H); try (unfold lt; repeat constructor);
+    try (intros p Hp; cbn [In] in Hp;
+         repeat (destruct Hp as [<-|Hp]; [eexists; vm_compute; reflexivity|]); destruct Hp);
+    try (eexists; split; [vm_compute; reflexivity|split; reflexivity])|]).
+  exact I.
+Qed.
+Example C05_ex_answers :
+  fc [1;1;1] 3 (index_all 3 ex_o) 4 1 = true /\ fc_spec [1;1;1] 3 3 (dag_of ex_o) 4 1 = true /\
+  fc [1;1;1] 3 (index_all 3 ex_o) 6 1 = false /\ sees_fork (dag_of ex_o) (anc (dag_of ex_o) 6) 0 = true /\
+  nbr (index_all 3 ex_o) = 4%nat.
+Proof. vm_compute. repeat split; reflexivity. Qed.
+Example C05_ex_indexed : indexed ex_o 4 /\ indexed ex_o 1 /\ indexed ex_o 6 /\ quorum_of [1;1;1] = 3.
+Proof. repeat split; try (eexists; vm_compute; reflexivity). Qed.
+
+Print Assumptions C05_anc_is_ancestry.
+Print Assumptions C05_spec_counts_validator.
 Print Assumptions C05_spec_row_is_spec.
+Print Assumptions C05_add_preserves_invariant.
+Print Assumptions C05_forkless_cause_equals_spec.
+Print Assumptions C05_order_independent.
+Print Assumptions C05_cached_queries_equal_spec.
+Print Assumptions C05_spec_stable_under_growth.
+Print Assumptions C05_wf_check_is_hypothesis.
+Print Assumptions C05_flush_drop_histories.
+Print Assumptions C05_query_from_invariant.
